@@ -267,3 +267,40 @@ def minlike(e):
     if op in ('>', '>=') and (l, r) == (b, a):
         return strip(e['l']), strip(e['r'])
     return None
+
+
+def facts_of_guards(guards):
+    """tree guards [('if', cond, pol) | ('switch', cond, values) | ('loop', cond)] as a list of facts (loops give nothing)"""
+    out = []
+    for g in guards:
+        if g[0] == 'if':
+            out += literals(g[1], g[2])
+        elif g[0] == 'switch':
+            vals = g[2]
+            out.append(('case-default', g[1]) if (not vals or 'default' in vals) else ('case', g[1], tuple(vals)))
+    return out
+
+
+def with_case_facts(fn, facts_list):
+    """facts_list plus, for every fact `e == C` (C an integer constant; e may be a local defined once, which is replaced by its
+    initialiser) or disjunction of such tests on one e, the fact ('case', e, (C, ..)) a `switch(e)` would have given: rules that ask
+    "is this statement in the arm for value C" then read a switch and an if / else-if chain alike."""
+    from .core import single_defs, subst
+    sd = single_defs(fn.d)
+    out = list(facts_list)
+    def eq(f):
+        if f[0] == 'cmp' and f[1] == '==':
+            for a, b in ((f[2], f[3]), (f[3], f[2])):
+                c = const_of(b)
+                if c is not None and const_of(a) is None and isinstance(c, int):
+                    return strip(subst(strip(a), sd)), c
+        return None
+    for f in facts_list:
+        e = eq(f)
+        if e:
+            out.append(('case', e[0], (e[1],)))
+        elif f[0] == 'or' and all(len(alt) == 1 and eq(alt[0]) for alt in f[1]):
+            es = [eq(alt[0]) for alt in f[1]]
+            if len({show(x[0]) for x in es}) == 1:
+                out.append(('case', es[0][0], tuple(x[1] for x in es)))
+    return out
